@@ -1,7 +1,7 @@
 (* C18 — Drawing shows the schedule and leaves the circuit alone. *)
 From Coq Require Import ZArith List Bool String Permutation.
 Import ListNotations.
-From QCE Require Import Base.Prelude Core.Model Core.Run C18.Memo C18.Model C18.ProofsDraw C18.Proofs.
+From QCE Require Import Base.Prelude Core.Model Core.Run C18.Memo C18.Model C18.ProofsDraw C18.ProofsSlots C18.Proofs.
 From Gen Require Import Ident Classes Flags.
 Open Scope string_scope.
 Open Scope list_scope.
@@ -84,6 +84,19 @@ Theorem C18_pivot_spec : forall env ns order lm d p e, true_drawing env ns order
          else x = (e_start e, 1)
   else filter (fun c => dc_pos c =? Z.of_nat p) (dr_comps d) = [].
 Proof. exact pivot_spec. Qed.
+(* a two-qubit gate that is the only two-qubit operation starting at its time is drawn exactly at its start time *)
+Theorem C18_pivot_alone_exact : forall env ns order lm d p e, true_drawing env ns order lm = Some d ->
+  nth_error (listing env ns) p = Some e -> is_two_qubit (l_cls (e_leaf e)) = true -> drawn_cls (l_cls (e_leaf e)) = true ->
+  (forall p' e', nth_error (listing env ns) p' = Some e' -> is_two_qubit (l_cls (e_leaf e')) = true ->
+                 e_start e' = e_start e -> p' = p) ->
+  forall c t, In c (dr_comps d) -> dc_pos c = Z.of_nat p -> In t (dc_tr c) -> tr_x t = (e_start e, 1).
+Proof. exact pivot_alone_exact. Qed.
+(* every drawn qubit of every listed operation has a row, and the row computed for it carries its channel *)
+Theorem C18_drawn_rows_exist : forall env ns order lm d e q, true_drawing env ns order lm = Some d -> In e (listing env ns) ->
+  l_chans (e_leaf e) <> [] -> In q (drawn_qubits (e_leaf e)) ->
+  let idx := vd_indices (dr_desc d) in
+  In q idx /\ nth_error idx (row_of q idx) = Some q.
+Proof. exact drawn_rows_exist. Qed.
 Theorem C18_only_operations_drawn : forall env ns order lm d c, true_drawing env ns order lm = Some d -> In c (dr_comps d) ->
   exists p e, nth_error (listing env ns) p = Some e /\ dc_pos c = Z.of_nat p /\ drawn_cls (l_cls (e_leaf e)) = true.
 Proof. exact comps_are_operations. Qed.
@@ -95,11 +108,12 @@ Theorem C18_shift_bound : forall x0 j n D, 0 <= j < n -> 0 <= D ->
   /\ Z.abs (fst x - x0 * snd x) * offset_unit <= draw_offset_scalar_num * D ^ draw_offset_duration_power * snd x
   /\ (n = 1 -> x = (x0, 1)).
 Proof. exact shifted_x_spec. Qed.
-(* ... which stays within a quarter of the gate's duration only for durations up to one time unit (finding F19 beyond) *)
-Theorem C18_shift_within_quarter_partial : forall x0 j n D, 0 <= j < n -> 0 <= D <= 8 ->
+(* ... which is within the documented quarter of the gate's own duration if the shift is linear in the duration, and for the
+   quadratic formula of the current source only for durations up to one time unit (finding F19 beyond) *)
+Theorem C18_shift_within_quarter_partial : forall x0 j n D, 0 <= j < n -> 0 <= D -> (draw_offset_duration_power = 1 \/ D <= 8) ->
   let x := shifted_x x0 (j, n) D in 0 < snd x /\ 4 * Z.abs (fst x - x0 * snd x) <= D * snd x.
 Proof. exact shifted_x_quarter. Qed.
-Theorem C18_shift_exceeds_quarter_refuted : exists x0 j n D, 0 <= j < n /\ 0 <= D /\
+Theorem C18_shift_exceeds_quarter_refuted : draw_offset_duration_power = 2 -> exists x0 j n D, 0 <= j < n /\ 0 <= D /\
   let x := shifted_x x0 (j, n) D in ~ (4 * Z.abs (fst x - x0 * snd x) <= D * snd x).
 Proof. exact shifted_x_exceeds_quarter. Qed.
 
@@ -120,11 +134,16 @@ Theorem C18_plot_preserves_any_flags : forall F compact order lm st, mf_sound F 
   fst r = true_drawing (drawing_env F compact (ms_env st)) (ms_nodes st) order lm
   /\ ms_env (snd r) = ms_env st /\ ms_nodes (snd r) = ms_nodes st /\ coh (snd r).
 Proof. exact plot_with_preserves. Qed.
-(* compact mode = the visualization durations, whatever the global settings; registry durations untouched *)
+(* the condition cannot be dropped: flags of the tree before the invalidation fix, finding F8 *)
+Theorem C18_plot_without_invalidation_refuted : exists F env ns, mf_sound F = false /\
+  fst (m_obs F (snd (plot_with F true [] None (fresh_state env ns)))) <> model_obs env ns.
+Proof. exact plot_needs_invalidation. Qed.
+(* compact mode = the generated VISUALIZATION_DURATION_REGISTRY for every global key, whatever the global settings; registry
+   durations untouched *)
 Theorem C18_compact_durations : forall env,
   drawing_env src_flags true env = vis_env env /\ drawing_env src_flags false env = env
-  /\ genv (vis_env env) GReadout = 16 /\ genv (vis_env env) GMicrowave = 8 /\ genv (vis_env env) GFlux = 8
-  /\ genv (vis_env env) GReset = 16 /\ renv (vis_env env) = renv env.
+  /\ (forall k, table_get VISUALIZATION_DURATION_REGISTRY (gkey_name k) = Some (genv (vis_env env) k))
+  /\ renv (vis_env env) = renv env.
 Proof. exact compact_durations. Qed.
 (* a whole check case: observe, draw, observe -- and a circuit first looked at by the drawing *)
 Theorem C18_history : forall env ns compact order lm,
@@ -149,12 +168,15 @@ Print Assumptions C18_label_given.
 Print Assumptions C18_label_default.
 Print Assumptions C18_width_spec.
 Print Assumptions C18_pivot_spec.
+Print Assumptions C18_pivot_alone_exact.
+Print Assumptions C18_drawn_rows_exist.
 Print Assumptions C18_only_operations_drawn.
 Print Assumptions C18_shift_bound.
 Print Assumptions C18_shift_within_quarter_partial.
 Print Assumptions C18_shift_exceeds_quarter_refuted.
 Print Assumptions C18_plot_preserves.
 Print Assumptions C18_plot_preserves_any_flags.
+Print Assumptions C18_plot_without_invalidation_refuted.
 Print Assumptions C18_compact_durations.
 Print Assumptions C18_history.
 Print Assumptions C18_first_seen_by_the_drawing.
